@@ -1128,3 +1128,205 @@ _reg19g = register
 def register(R):  # noqa: F811
     _reg19g(R)
     register_populations(R)
+
+
+# ---------------------------------------------------------------------------
+# Populations.from_swc: one population per root; with intersect=True (default) every population lists the SAME relative
+# paths in the SAME order (the paths found under every root, each once), joined with its own root, so that row i holds
+# same-named files.  set / intersection / list(set) / functools.reduce are models (pyvc/ext_C19.py): the order in which
+# list(set) enumerates is left unconstrained (it depends on the hash seed), what is proved is that all populations share it.
+def register_populations_from_swc(R):
+    from pyvc.values import Obj, PDict, zint
+    from swcgeom.core.population import LazyLoadingTrees, Population, Populations
+
+    def setup(k, intersect, labels=False, check_same=False):
+        def f(S):
+            roots = PList([X.StrRef(S.int(f"root{a}").z) for a in range(k)])
+            lab = PList([X.StrRef(S.int(f"label{a}").z) for a in range(k)]) if labels else None
+            return dict(cls=Populations, roots=roots, ext=X.StrRef(S.int("ext").z), intersect=intersect, check_same=check_same, labels=lab,
+                        kwargs=PDict({}), given_roots=roots, given_labels=lab, __ghost__=GHOST)
+
+        return f
+
+    def pops(v):
+        """[(population, its lazy container)] of the result, or None"""
+        r = v["result"]
+        if not (isinstance(r, Obj) and r.cls is Populations):
+            return None
+        L = r.fields.get("populations")
+        if not (isinstance(L, PList) and L.items is not None):
+            return None
+        out = []
+        for p in L.items:
+            if not (isinstance(p, Obj) and p.cls is Population):
+                return None
+            lz = p.fields.get("trees")
+            if not (isinstance(lz, Obj) and lz.cls is LazyLoadingTrees and all(isinstance(lz.fields.get(f), PList) and lz.fields[f].items is None for f in ("swcs", "trees", "reads"))):
+                return None
+            out.append((p, lz))
+        return out
+
+    def searches(E, v, o):
+        cs = [a for nm, a in E.call_log if nm == "Population.find_swcs"]
+        roots = o["given_roots"].items
+        return len(cs) == len(roots) and all(E.is_same(c["root"], r) is True and E.is_same(c["ext"], o["ext"]) is True and c["relpath"] is True for c, r in zip(cs, roots))
+
+    def found(E):
+        return [a["__result__"] for nm, a in E.call_log if nm == "Population.find_swcs"]
+
+    def one_per_root(E, v, o):
+        ps, roots = pops(v), o["given_roots"].items
+        return ps is not None and len(ps) == len(roots) and all(E.is_same(p.fields.get("root"), r) is True for (p, _), r in zip(ps, roots))
+
+    def rel_term(E, v, o, i):
+        """the relative path of row i, read off population 0: its i-th file is join(root0, REL(i))"""
+        ps = pops(v)
+        t = z3.simplify(z3.Select(ps[0][1].fields["swcs"].cols[0], i))
+        if t.decl().name() != X.JOIN.name() or not z3.simplify(t.arg(0) == X.zref(o["given_roots"].items[0])).eq(z3.BoolVal(True)):
+            return None
+        return t.arg(1)
+
+    def same_named(E, v, o):
+        ps = pops(v)
+        if not ps:
+            return False
+        i = z3.Int(fresh_name("row"))
+        rel = rel_term(E, v, o, i)
+        if rel is None:
+            return False
+        n0 = zint(ps[0][1].fields["swcs"].n)
+        acc = []
+        for (p, lz), r in zip(ps, o["given_roots"].items):
+            S_ = lz.fields["swcs"]
+            acc.append(zint(S_.n) == n0)
+            acc.append(z3.ForAll([i], z3.Implies(z3.And(i >= 0, i < n0), z3.Select(S_.cols[0], i) == X.JOIN(X.zref(r), rel))))
+        return z3.And(*acc)
+
+    def rows_found_everywhere(E, v, o):
+        ps, F = pops(v), found(E)
+        i = z3.Int(fresh_name("row"))
+        rel = rel_term(E, v, o, i)
+        if rel is None or len(F) != len(ps):
+            return False
+        n0 = zint(ps[0][1].fields["swcs"].n)
+        ws = {id(L): (idx, n, col) for L, idx, n, col in E.ghost.get("set-witnesses", [])}
+        acc = []
+        for Fa in F:
+            if len(F) == 1:
+                acc.append(z3.And(n0 == zint(Fa.n), z3.ForAll([i], z3.Implies(z3.And(i >= 0, i < n0), rel == z3.Select(Fa.cols[0], i)))))
+                continue
+            if id(Fa) not in ws:
+                return False
+            idx, n, col = ws[id(Fa)]
+            acc.append(z3.ForAll([i], z3.Implies(z3.And(i >= 0, i < n0), z3.And(idx(rel) >= 0, idx(rel) < zint(Fa.n), z3.Select(Fa.cols[0], idx(rel)) == rel))))
+        return z3.And(*acc)
+
+    def common_all_listed_once(E, v, o):
+        ps, F = pops(v), found(E)
+        if len(F) == 1:
+            return True
+        i, i2, x = z3.Int(fresh_name("row")), z3.Int(fresh_name("row2")), z3.Int(fresh_name("name"))
+        rel = rel_term(E, v, o, i)
+        enums = E.ghost.get("set-enumerations", [])
+        if rel is None or len(enums) != 1:
+            return False
+        _, _, pos = enums[0]
+        n0 = zint(ps[0][1].fields["swcs"].n)
+        j = [z3.Int(fresh_name("j")) for _ in F]
+        everywhere = z3.And(*[z3.And(jj >= 0, jj < zint(Fa.n), z3.Select(Fa.cols[0], jj) == x) for jj, Fa in zip(j, F)])
+        rel_at = lambda t: z3.substitute(rel, (i, t))
+        return z3.And(z3.ForAll([x] + j, z3.Implies(everywhere, z3.And(pos(x) >= 0, pos(x) < n0, rel_at(pos(x)) == x))),
+                      z3.ForAll([i, i2], z3.Implies(z3.And(i >= 0, i < i2, i2 < n0), rel_at(i) != rel_at(i2))))
+
+    def as_found(E, v, o):
+        """intersect=False: population a lists the files found under its own root, in that order"""
+        ps, F = pops(v), found(E)
+        if ps is None or len(F) != len(ps):
+            return False
+        i = z3.Int(fresh_name("row"))
+        acc = []
+        for (p, lz), r, Fa in zip(ps, o["given_roots"].items, F):
+            S_ = lz.fields["swcs"]
+            acc.append(z3.And(zint(S_.n) == zint(Fa.n), z3.ForAll([i], z3.Implies(z3.And(i >= 0, i < zint(Fa.n)), z3.Select(S_.cols[0], i) == X.JOIN(X.zref(r), z3.Select(Fa.cols[0], i))))))
+        return z3.And(*acc)
+
+    def length(E, v, o):
+        ps = pops(v)
+        m = to_z3(v["result"].fields["len"], "int")
+        ns = [zint(lz.fields["swcs"].n) for _, lz in ps]
+        return z3.And(z3.And(*[m <= n for n in ns]), z3.Or(*[m == n for n in ns]))
+
+    def labels(E, v, o):
+        L, g, k = v["result"].fields.get("labels"), o["given_labels"], len(o["given_roots"].items)
+        if not (isinstance(L, PList) and L.items is not None and len(L.items) == k):
+            return False
+        return all(x == "" for x in L.items) if g is None else all(E.is_same(a, b) is True for a, b in zip(L.items, g.items))
+
+    def lazy(E, v, o):
+        """in every population: nothing loaded or counted as read except possibly its first file; the object invariant holds"""
+        acc = []
+        for p, lz in pops(v):
+            S_, T, Rd = (lz.fields[f] for f in ("swcs", "trees", "reads"))
+            j = z3.Int(fresh_name("j"))
+            n, sel = zint(S_.n), z3.Select
+            acc.append(z3.And(zint(T.n) == n, zint(Rd.n) == n,
+                              z3.ForAll([j], z3.Implies(z3.And(j >= 1, j < n), z3.And(sel(T.cols[0], j) == 0, sel(Rd.cols[0], j) == 0))),
+                              z3.Implies(n > 0, z3.And(sel(Rd.cols[0], 0) >= 0, sel(Rd.cols[0], 0) <= 1, (sel(Rd.cols[0], 0) == 0) == (sel(T.cols[0], 0) == 0),
+                                                       z3.Implies(sel(T.cols[0], 0) != 0, sel(T.cols[0], 0) == TREE_OF(sel(S_.cols[0], 0)))))))
+        return z3.And(*acc)
+
+    def probes(E, v, o):
+        cs = [a for nm, a in E.call_log if nm == "LazyLoadingTrees.__getitem__"]
+        ps = pops(v)
+        direct = [nm for nm, _ in E.call_log if nm in ("Tree.from_swc", "LazyLoadingTrees.load")]
+        if direct or len(cs) > len(ps):
+            return False
+        seen = []
+        for c in cs:  # at most one probe per population, each of index 0
+            if c["self"] in seen or not any(c["self"] is lz for _, lz in ps) or not (isinstance(c["key"], int) and c["key"] == 0):
+                return False
+            seen.append(c["self"])
+        return True
+
+    BASE = [("one-population-per-root-in-order-each-rooted-at-its-root", one_per_root),
+            ("every-root-searched-once-for-relative-paths-with-the-extension", searches),
+            ("len-is-the-minimum-population-length", length),
+            ("labels-given-or-empty-one-per-population", labels),
+            ("nothing-loaded-or-read-except-possibly-the-first-file-of-each-population", lazy),
+            ("at-most-one-probe-of-file-0-per-population-no-direct-read", probes)]
+    MATCH = [("row-i-holds-same-named-files:the-same-relative-path-joined-with-each-root-same-order-everywhere", same_named),
+             ("every-row-name-was-found-under-every-root", rows_found_everywhere),
+             ("every-name-found-under-all-roots-has-exactly-one-row", common_all_listed_once)]
+
+    R.add(f"{POP}:Populations.from_swc", prop="C19",
+          variants={"one-root": setup(1, True), "two-roots": setup(2, True), "three-roots-labelled": setup(3, True, labels=True)},
+          ensures=BASE + MATCH,
+          notes="fixed numbers of roots (1..3); walks, file lists, extension symbolic; find_swcs through its contract; constructors inlined")
+    R.add(f"{POP}:Populations.from_swc", prop="C19",
+          variants={"two-roots-no-intersection": setup(2, False)},
+          ensures=BASE + [("without-intersection-each-population-lists-what-was-found-under-its-root-in-that-order", as_found)],
+          notes="intersect=False: no matching; only the minimum length is recorded")
+
+    # FINDING (genuine defect, replayed natively: /var/tmp/w2-c19-x/cs/replay_check_same.py in the report): with intersect=False the
+    # option check_same=True is documented as "Check if the directories contains the same swc", but the code asserts a
+    # NON-EMPTY LIST (`assert [fs[0] == a for a in fs[1:]]`), which is always true for two or more roots: directories with
+    # different file sets are accepted and row i pairs differently named files.  (With ONE root the list is empty and the
+    # call always raises AssertionError.)  The clause below is what the option promises; it FAILS on the unchanged code.
+    def same_lists(E, v, o):
+        F = found(E)
+        i = z3.Int(fresh_name("row"))
+        return z3.And(*[z3.And(zint(Fa.n) == zint(F[0].n), z3.ForAll([i], z3.Implies(z3.And(i >= 0, i < zint(F[0].n)), z3.Select(Fa.cols[0], i) == z3.Select(F[0].cols[0], i)))) for Fa in F[1:]])
+
+    R.add(f"{POP}:Populations.from_swc", prop="C19",
+          variants={"two-roots-check-same": setup(2, False, check_same=True)},
+          raises={"AssertionError": ("only-when-some-root-lists-different-relative-paths", lambda E, v, o: True)},
+          ensures=[("check_same:accepted-only-if-every-root-lists-the-same-relative-paths", same_lists)],  # FINDING
+          notes="FINDING: check_same never rejects")
+
+
+_reg19h = register
+
+
+def register(R):  # noqa: F811
+    _reg19h(R)
+    register_populations_from_swc(R)
